@@ -2081,8 +2081,14 @@ def c14(ctx):
     for loc in ctx.locales():
         plan += [("x:tsan", 8, 1, loc), ("x:tsan", 3, 2, loc)]
     for v, nth, rounds, loc in plan:
-        p = subprocess.run([ctx.drive(v), fn, str(nth), str(rounds)], stdout=subprocess.PIPE, stderr=subprocess.PIPE, env=dict(env, **(loc or {})))
+        p = vlib.run_timed([ctx.drive(v), fn, str(nth), str(rounds)], 400 if ctx.tier == "quick" else 3600, env=dict(env, **(loc or {})))
         out = p.stdout.decode(errors="replace")
+        if p.timed_out:
+            err = p.stderr.decode(errors="replace")
+            ctx.S("the threaded run does not terminate (threads using their own eav_t each; killed after %d s)" % (400 if ctx.tier == "quick" else 3600),
+                  op="mt[%s%s] %d threads x %d rounds over %d addresses" % (v[2:], ("," + loc["VERIF_LOCALE"]) if loc else "", nth, rounds, len(addrs)),
+                  report=err[:1500], frames=re.findall(r"#0 (\S+) (\S+)", err)[:4])
+            continue
         m = re.search(r"calls=(\d+) mismatches=(\d+)", out)
         calls = int(m.group(1)) if m else 0
         ctx.evals += calls
@@ -2177,7 +2183,7 @@ def c06(ctx):
     fi = os.path.join(ctx.scr.dir, "gcov.in")
     with open(fi, "w") as f:
         f.write("\n".join(cov_ops) + "\n")
-    subprocess.run([ctx.drive("x:gcov"), fi, fi + ".out", fi + ".lean"], stdout=subprocess.PIPE, stderr=subprocess.PIPE)
+    vlib.run_timed([ctx.drive("x:gcov"), fi, fi + ".out", fi + ".lean"], 1800)
     try:
         ctx.extra_cov["library_coverage_under_these_streams"] = vlib.gcov_report(ctx.drive("x:gcov"))
     except Exception as e:
@@ -2211,8 +2217,11 @@ def c06(ctx):
             with open(fi, "w") as f:
                 f.write("\n".join(mk(n)) + "\n")
             cgout = fi + ".cg"
-            p = subprocess.run(["valgrind", "--tool=callgrind", "--callgrind-out-file=" + cgout, "--toggle-collect=" + (toggles.get(fam) or ("is_*_local" if fam.startswith("local") else "is_ipv6" if fam.startswith("ipv6") else "is_*_email")), ctx.drive("x:plain"), fi, fi + ".out", fi + ".lean"],
-                               stdout=subprocess.PIPE, stderr=subprocess.PIPE)
+            p = vlib.run_timed(["valgrind", "--tool=callgrind", "--callgrind-out-file=" + cgout, "--toggle-collect=" + (toggles.get(fam) or ("is_*_local" if fam.startswith("local") else "is_ipv6" if fam.startswith("ipv6") else "is_*_email")), ctx.drive("x:plain"), fi, fi + ".out", fi + ".lean"], 1800)
+            if p.timed_out:
+                ctx.S("work is not linear in the input length (the call does not return within 1800 s under callgrind)", op="%s..." % mk(n)[0][:120], family=fam, size=n)
+                counts.append(None)
+                break
             ir = None
             if os.path.exists(cgout):
                 for line in open(cgout):
@@ -2242,8 +2251,7 @@ def c06(ctx):
         ops = ["P %d %d %d %s" % (m, t, 760, hx(s)) for m in MODES for t in (0, 1) for s in (mails[::25] + edge[::40])] + ["H " + sc for sc in scripts[::10]]
         fi = os.path.join(ctx.scr.dir, "mc.in")
         open(fi, "w").write("\n".join(ops) + "\n")
-        p = subprocess.run(["valgrind", "--error-exitcode=77", "--leak-check=full", "--track-origins=yes", "-q", ctx.drive("x:plain"), fi, fi + ".out", fi + ".lean"],
-                           stdout=subprocess.PIPE, stderr=subprocess.PIPE)
+        p = vlib.run_timed(["valgrind", "--error-exitcode=77", "--leak-check=full", "--track-origins=yes", "-q", ctx.drive("x:plain"), fi, fi + ".out", fi + ".lean"], 7200)
         ctx.evals += len(ops)
         if p.returncode == 77:
             ctx.S("valgrind memcheck reports an error (uninitialised read, invalid access or leak)", op="memcheck slice of %d ops" % len(ops), report=p.stderr.decode(errors="replace")[:2000])
@@ -2325,10 +2333,13 @@ def c20(ctx):
         model_lines = [bytes.fromhex(x) if x != "-" else b"" for x in tl.split(" ")[1:]] if tl.strip() != "Ft" else []
         fn = os.path.join(ctx.scr.dir, "cli_%d.txt" % idx)
         open(fn, "wb").write(f)
-        p = subprocess.run([exe, fn], stdout=subprocess.PIPE, stderr=subprocess.PIPE, env=env)
+        p = vlib.run_timed([exe, fn], 120, env=env)
         ctx.evals += 1
         ctx.nontrivial.add(hx(f[:200]) + ":%d" % len(f))
         op = "cli " + (hx(f) if len(f) < 400 else hx(f[:200]) + "...(%d bytes)" % len(f))
+        if p.timed_out:
+            ctx.S("the eav tool does not terminate (killed after 120 s)", op=op)
+            continue
         if p.returncode != 0:
             ctx.S("the eav tool does not terminate normally (exit %d)" % p.returncode, op=op, stderr=p.stderr.decode(errors="replace")[-700:])
             continue
@@ -2393,13 +2404,13 @@ def c20(ctx):
                 continue
             fn = os.path.join(ctx.scr.dir, "cli_alone.txt")
             open(fn, "wb").write(ln + b"\n")
-            p = subprocess.run([exe, fn], stdout=subprocess.PIPE, stderr=subprocess.PIPE, env=env)
+            p = vlib.run_timed([exe, fn], 120, env=env)
             alone[ln] = verdict_heads(p.stdout)
             ctx.evals += 1
         for order in (g, list(reversed(g))):
             fn = os.path.join(ctx.scr.dir, "cli_group.txt")
             open(fn, "wb").write(b"\n".join(order) + b"\n")
-            p = subprocess.run([exe, fn], stdout=subprocess.PIPE, stderr=subprocess.PIPE, env=env)
+            p = vlib.run_timed([exe, fn], 300, env=env)
             ctx.evals += 1
             heads = verdict_heads(p.stdout)
             ctx.nontrivial.add("group%d:%d" % (gi, len(order)))
@@ -2418,8 +2429,11 @@ def c20(ctx):
         for idx, f in enumerate(pick):
             fn = os.path.join(ctx.scr.dir, "clik.txt")
             open(fn, "wb").write(f)
-            p2 = subprocess.run([exk, fn], stdout=subprocess.PIPE, stderr=subprocess.PIPE, env=envk)
-            p1 = subprocess.run([exe, fn], stdout=subprocess.PIPE, stderr=subprocess.PIPE, env=env)
+            p2 = vlib.run_timed([exk, fn], 120, env=envk)
+            p1 = vlib.run_timed([exe, fn], 120, env=env)
+            if p2.timed_out:
+                ctx.S("the eav tool built for the idnkit back end does not terminate (killed after 120 s)", op="cli[idnkit] " + hx(f)[:800], variant="x:cli-idnkit")
+                break
             ctx.evals += 1
             ctx.nontrivial.add("idnkit:" + hx(f[:200]))
             op = "cli[idnkit] " + hx(f)[:800]
